@@ -3,8 +3,11 @@ EXTENDS JobMap, Json
 K2 == {"m1", "m2"}
 K3 == {"m1", "m2", "m3"}
 F1 == {"zz"}
-ScriptsQ == {<<"ok">>, <<"fail", "ok">>, <<"omit", "ok">>, <<"fail">>, <<"ok", "fail">>, <<"ok", "omit">>}
+\* outcomes of one execution: ok | fail (exit status 3) | omit (exit 0 without the return file) | killed (the command writes
+\* a partial return file and is killed by a signal; a second command of the same job would succeed)
+ScriptsQ == {<<"ok">>, <<"fail", "ok">>, <<"omit", "ok">>, <<"fail">>, <<"ok", "fail">>, <<"ok", "omit">>, <<"killed", "ok">>}
 ScriptsV == {<<"ok">>, <<"fail", "ok">>, <<"omit">>, <<"ok", "fail">>}
+ScriptsVK == {<<"ok">>, <<"fail", "ok">>, <<"omit">>, <<"ok", "fail">>, <<"killed">>}      \* thorough tier
 V2 == {1, 2}
 DevNone == {}
 DevReuseFailed == {"ReuseFailed"}
